@@ -565,7 +565,29 @@ fn mutate(rng: &mut Rng, seeds: &[Vec<u8>], mtu: usize) -> Vec<u8> {
             break;
         }
         let i = if rng.chance(3, 4) { rng.below(f.len().min(80) as u64) as usize } else { rng.below(f.len() as u64) as usize };
-        match rng.below(9) {
+        match rng.below(11) {
+            9 | 10 => {
+                // structure-aware: find a 16-bit big-endian field that looks like a length field (its value
+                // plus its own offset lands near the end of the frame: IPv4 total length, IPv6 payload length,
+                // UDP length, ...) and set it to a boundary value around the header sizes, or nudge it
+                let n = f.len();
+                let cands: Vec<usize> = (0..n.saturating_sub(1).min(100))
+                    .filter(|&j| {
+                        let v = u16::from_be_bytes([f[j], f[j + 1]]) as usize;
+                        v + j + 64 >= n && v + j <= n + 8
+                    })
+                    .collect();
+                if !cands.is_empty() {
+                    let j = *rng.pick(&cands);
+                    let v = u16::from_be_bytes([f[j], f[j + 1]]);
+                    let nv = match rng.below(3) {
+                        0 => *rng.pick(&[0u16, 1, 2, 3, 4, 7, 8, 9, 19, 20, 21, 22, 23, 24, 27, 28, 29, 39, 40, 41, 48, 60, 61]),
+                        1 => v.wrapping_sub(rng.range(1, 9) as u16),
+                        _ => v.wrapping_add(rng.range(1, 9) as u16),
+                    };
+                    f[j..j + 2].copy_from_slice(&nv.to_be_bytes());
+                }
+            }
             0 => f[i] ^= 1 << rng.below(8),
             1 => f[i] = *rng.pick(&[0u8, 1, 0x7f, 0x80, 0xfe, 0xff, 0x0f, 0xf0]),
             2 => f[i] = rng.next() as u8,
